@@ -698,6 +698,51 @@ def gen_mem_sites(srcs):
            "  [" + ";\n   ".join('("%s"%%string, "%s"%%string, [%s])' % (k, f, "; ".join('"%s"%%string' % esc(c) for c in cs)) for k, f, cs in items) + "]."]
     return "\n".join(out)
 
+# ------------------------------------------------------------------ control skeleton of the hand-modelled functions
+CTRL = re.compile(r'\b(else\s+if|if|while|match|return|for|loop)\b')
+def gen_branches(srcs):
+    """for every hand-modelled function: each `if` / `else if` / `while` / `match` with its condition or scrutinee, each
+    `for` / `loop`, and each `return` with its value, in textual order (local names abstracted as in mem_sites) — a new
+    early exit, special case or threshold in a modelled function changes this table"""
+    items = []
+    for key, fn, occ in SKEL_FUNCS:
+        body = strip_debug_asserts(fn_body(strip_cfg_verif(srcs[key]), fn, occ, key))
+        entry = []
+        for m in CTRL.finditer(body):
+            kw = re.sub(r'\s+', ' ', m.group(1))
+            j = m.end()
+            if kw == 'return':
+                k = j; depth = 0
+                while k < len(body) and not (body[k] in ';}' and depth == 0 or body[k] == ',' and depth == 0):
+                    if body[k] in '([{': depth += 1
+                    elif body[k] in ')]}': depth -= 1
+                    k += 1
+                entry.append('return ' + norm_ws(body[j:k]))
+            elif kw == 'loop':
+                entry.append('loop')
+            else:
+                depth = 0; k = j
+                while k < len(body):
+                    c = body[k]
+                    if c in '([': depth += 1
+                    elif c in ')]': depth -= 1
+                    elif c == '{' and depth == 0: break
+                    k += 1
+                entry.append(kw + ' ' + norm_ws(body[j:k]))
+        names = []
+        for m in re.finditer(r'\blet\s+(?:mut\s+)?([A-Za-z_][A-Za-z0-9_]*)\s*(?::[^=;]*)?=', body):
+            if m.group(1) not in names:
+                names.append(m.group(1))
+        for k, nm in enumerate(names):
+            pat = re.compile(r'(?<![\w])(?<!(?<!\.)\.)' + re.escape(nm) + r'(?![\w])(?!\s*\()')
+            entry = [pat.sub('%%%d' % (k + 1), t) for t in entry]
+        items.append((key, fn, entry))
+    esc = lambda t: t.replace('"', '""')
+    out = ["(* ---- control skeleton of the hand-modelled functions: conditions, scrutinees, loops and early returns ---- *)",
+           "Definition branches : list (string * string * list string) :=",
+           "  [" + ";\n   ".join('("%s"%%string, "%s"%%string, [%s])' % (k, f, "; ".join('"%s"%%string' % esc(c) for c in cs)) for k, f, cs in items) + "]."]
+    return "\n".join(out)
+
 # ------------------------------------------------------------------ every function of lib.rs / traits.rs: all its calls
 ALL_CALLS = re.compile(r'\b([A-Za-z_][A-Za-z0-9_]*)\s*(?:::<[^>]*>)?\s*(?:\(|!\s*[(\[{])')
 NOT_CALLS = {'if', 'while', 'for', 'match', 'return', 'loop', 'fn', 'let', 'unsafe', 'move', 'in', 'as', 'else', 'impl', 'where', 'debug_assert', 'debug_assert_eq'}
@@ -757,6 +802,7 @@ def main():
         parts.append(gen_digits(raw['num']))
         parts.append(gen_skeletons(srcs))
         parts.append(gen_mem_sites(srcs))
+        parts.append(gen_branches(srcs))
         parts.append(gen_wrappers(srcs))
     except TranslationError as e:
         sys.stderr.write(f"translate.py: TRANSLATION FAILED: {e}\n")
